@@ -443,6 +443,83 @@ def rule_r3(facts, rep, rid="C16-R3"):
             rep.ok(rid, "none|uses:%s" % prefix.rstrip(":"), "no use in the workspace", nontrivial=False)
 
 
+# ------------------------------------------------------------------------------------------ R4 comparators
+
+def _cmp_param_sets(cl):
+    """For a 2-parameter comparator closure: for every `x.cmp(&y)` / `partial_cmp` / `==`/`<` inside, which closure parameters each side mentions."""
+    params = []
+    for p in cl.get("params", []):
+        params.append(set(lid for _n, lid in fb.pat_bindings(p)))
+    if len(params) != 2:
+        return None
+    out = []
+
+    def side(e):
+        got = set()
+        for y in fb.walk(e):
+            if y.get("k") == "path" and y.get("res") == "local":
+                if y["id"] in params[0]:
+                    got.add(0)
+                if y["id"] in params[1]:
+                    got.add(1)
+        return got
+    # locals defined inside the closure from one parameter count as that parameter
+    binds = {}
+    for y in fb.walk(cl["body"]):
+        if y.get("k") == "let" and y.get("init") is not None:
+            sset = side(y["init"])
+            for _n, lid in fb.pat_bindings(y["pat"]):
+                binds[lid] = sset
+
+    def side2(e):
+        got = side(e)
+        for y in fb.walk(e):
+            if y.get("k") == "path" and y.get("res") == "local" and y["id"] in binds:
+                got |= binds[y["id"]]
+        return got
+    for y in fb.walk(cl["body"]):
+        if y.get("k") == "mcall" and y["name"] in ("cmp", "partial_cmp", "total_cmp", "eq", "ne", "lt", "gt", "le", "ge") and y["args"]:
+            out.append((y, side2(y["recv"]), side2(y["args"][0])))
+        if y.get("k") == "binary" and y["op"] in ("==", "!=", "<", ">", "<=", ">="):
+            out.append((y, side2(y["l"]), side2(y["r"])))
+    return out
+
+
+def rule_r4(facts, rep, rid="C16-R4"):
+    n = 0
+    for f in facts.body_fns():
+        if f.crate not in ("liwe", "iwes", "iwe") or f.kind == "closure" or "::tests::" in f.def_ or "::test::" in f.def_:
+            continue
+        counts = {}
+        for x in fb.walk(f.body):
+            if x.get("k") != "mcall" or x["name"] not in ("sorted_by", "sort_by", "sort_unstable_by", "max_by", "min_by", "binary_search_by", "sorted_unstable_by", "dedup_by"):
+                continue
+            cls = [a for a in x["args"] if a.get("k") == "closure"]
+            if not cls:
+                continue
+            i = counts.get(x["name"], 0)
+            counts[x["name"]] = i + 1
+            sets = _cmp_param_sets(cls[0])
+            if sets is None:
+                continue
+            rep.saw_fn(f)
+            for j, (node, l, r) in enumerate(sets):
+                if not l and not r:
+                    continue        # comparison between things that are not elements (e.g. `query.is_empty()`, `primary == Equal`)
+                n += 1
+                key = "%s|%s:%d|cmp:%d" % (f.def_, x["name"], i, j)
+                if (l == {0} and r == {1}) or (l == {1} and r == {0}):
+                    rep.ok(rid, key, "compares the two elements (%s)" % fb.show(node)[:70], loc(f, node))
+                elif l == r and len(l) == 1:
+                    rep.violation(rid, key, "degenerate comparison `%s`: both operands come from the same element, so this level of the ordering is always Equal and the "
+                                  "result order falls back to the input order (insertion / load history, hash order)" % fb.show(node)[:90], loc(f, node))
+                elif not l or not r:
+                    rep.ok(rid, key, "compares an element with a constant (%s)" % fb.show(node)[:60], loc(f, node), nontrivial=False)
+                else:
+                    rep.undecided(rid, key, "comparison mixes both elements on one side: %s" % fb.show(node)[:80], loc(f, node))
+    rep.floor(rid, "element comparisons inside comparator closures", n, 8)
+
+
 def run(facts, rep, tier):
     rep.rule("C16-R1", "Hash-order taint: every iteration over a HashMap/HashSet (and every call of a fn returning such data) must end in an "
              "order-insensitive sink (collect into map/set, len/any/all/contains/min/max, total sort) before it reaches a return value, "
@@ -453,3 +530,6 @@ def run(facts, rep, tier):
     rule_r1(facts, rep)
     rule_r2(facts, rep)
     rule_r3(facts, rep)
+    rep.rule("C16-R4", "Comparator sanity: inside every comparator closure (sorted_by / sort_by / max_by ...) each comparison relates the first element to the second; a comparison "
+             "whose operands both come from the same element makes that level constant, so ties are broken by input order (load/insert history, hash order).")
+    rule_r4(facts, rep)
